@@ -48,6 +48,7 @@ class Contract:
         self.opaque_calls: List[str] = []
         self.opaque_elems: Dict[str, str] = {}
         self.may_raise: List[str] = []
+        self.assumed = False
         self.checks: Dict[str, ast.expr] = {}
 
 
@@ -91,6 +92,7 @@ def load_contracts(paths) -> "SpecEnv":
                     elif name == "opaque_calls": c.opaque_calls = ast.literal_eval(v)
                     elif name == "opaque_elems": c.opaque_elems = ast.literal_eval(v)
                     elif name == "may_raise": c.may_raise = ast.literal_eval(v)
+                    elif name == "assumed": c.assumed = ast.literal_eval(v)
                     elif name == "note": c.note = ast.literal_eval(v)
                     elif name == "requires": c.requires = _lam(v)
                     elif name in ("ensures", "raises", "on_raise", "loops", "lemmas", "checks"):
